@@ -87,6 +87,13 @@ def _call(rec, what, fn, info):
         return None
 
 
+def quad_regime(mu, Sigma):
+    """the quadrature of evaluate() carries eps * |exponent| of its own rounding: it is used as an
+    oracle only for O(1) exponents (moderate scale, means within 100 sd, condition <= 1e3)."""
+    sd = np.sqrt(np.max(np.diagonal(Sigma, axis1=1, axis2=2)))
+    return bool(1e-2 < sd < 1e2 and np.max(np.abs(mu)) < 1e2 * sd and gen.cond(Sigma) <= 1e3)
+
+
 def quad_mass(u, t, order=(40, 60)):
     """ln of the integral of the library's own evaluate() by Gauss-Hermite quadrature with an
     oracle-chosen proposal N(mu, 1.3^2 Sigma). returns (mass [R], converged)."""
@@ -106,13 +113,24 @@ def quad_mass(u, t, order=(40, 60)):
     return res[1], ok, a
 
 
-def check_mass(rec, u, t, info, tag, quad=True):
-    """all mass read-outs of measure u against ground truth t (Lambda, nu, ln_beta)."""
+def check_mass(rec, u, t, info, tag, quad=True, pre_Lambda=None):
+    """all mass read-outs of measure u against ground truth t (Lambda, nu, ln_beta).
+    pre_Lambda: precision before a rank-one (Sherman-Morrison) update produced u's covariance:
+    the update subtracts a rank-one matrix from the *old* covariance, so the old covariance is
+    part of the natural scale of everything computed from the new one."""
+    if not gen.in_domain(t.Lambda, kmax=1.001 * gen.KAPPA_MAX):
+        # e.g. an O(1) rank-one term on top of a precision of scale 1e-8: neither the library
+        # nor the float64 oracle resolves that (checked against mpmath), so it is not judged
+        rec.count("out_of_domain")
+        return
     ref = orc.gauss_lnZ(t.Lambda, t.nu) + t.ln_beta
     D = t.nu.shape[-1]
     S = orc.inv(t.Lambda)
     ns = 1.0 + 0.5 * (np.einsum("rd,rde,re->r", np.abs(t.nu), np.abs(S), np.abs(t.nu))
                       + D * orc.LN2PI + np.abs(orc.slogdet(t.Lambda))) + np.abs(t.ln_beta)
+    if pre_Lambda is not None:
+        S0 = np.abs(orc.inv(pre_Lambda))
+        ns = ns + 0.5 * np.einsum("rd,rde,re->r", np.abs(t.nu), S0, np.abs(t.nu))
     for name, fn, is_log in (("log_integral_light", lambda: u.log_integral_light(), True),
                              ("log_integral", lambda: u.log_integral(), True),
                              ("integral_light", lambda: u.integral_light(), False),
@@ -127,7 +145,8 @@ def check_mass(rec, u, t, info, tag, quad=True):
         else:
             rec.close(f"{name}", got, np.exp(ref), ns=np.exp(ref) * ns + 1e-280,
                       detail=dict(info, tag=tag), mech=f"mass-closed-form:{name}:{tag}")
-    if quad and D <= 2 and gen.in_domain(t.Lambda):
+    if quad and D <= 2 and gen.in_domain(t.Lambda) and quad_regime(
+            *orc.moments_from_natural(t.Lambda, t.nu)):
         mu, Sig = orc.moments_from_natural(t.Lambda, t.nu)
         tt = build.Truth(mu=mu, Sigma=Sig)
         m, ok, a = quad_mass(u, tt)
@@ -185,7 +204,8 @@ def run_mass(cell, rec, seed):
                             tr = build.Truth(Lambda=tu.Lambda + tf.Lambda, nu=tu.nu + tf.nu,
                                              ln_beta=tu.ln_beta + tf.ln_beta)
                             check_mass(rec, r, tr, dict(info, fk=fk, uf=uf), f"hadamard:{fk}",
-                                       quad=(uf and fk == "rank1"))
+                                       quad=(uf and fk == "rank1"),
+                                       pre_Lambda=tu.Lambda if fk == "rank1" else None)
             else:
                 _, fk, uf = h.split(":")
                 uf = bool(int(uf))
@@ -198,13 +218,15 @@ def run_mass(cell, rec, seed):
                 if r is not None:
                     tr = outer(tu, tf)
                     if gen.in_domain(tr.Lambda):
-                        check_mass(rec, r, tr, dict(info, cached=cached), f"mul:{fk}")
+                        pre = np.repeat(tu.Lambda, R2, axis=0) if fk == "rank1" else None
+                        check_mass(rec, r, tr, dict(info, cached=cached), f"mul:{fk}",
+                                   pre_Lambda=pre)
                         # a second product on top (rank-one update of an updated covariance)
                         f2, tf2 = build.mk_factor("rank1", rng, 1, D)
                         r2 = _call(rec, "multiply", lambda: r.multiply(f2, update_full=True), info)
                         if r2 is not None:
                             check_mass(rec, r2, outer(tr, tf2), dict(info, cached=cached),
-                                       f"mul:{fk}+rank1", quad=False)
+                                       f"mul:{fk}+rank1", quad=False, pre_Lambda=tr.Lambda)
                         # normalising: get_density().evaluate_ln = u.evaluate_ln - ln int u
                         dn = _call(rec, "get_density", lambda: r.get_density(), info)
                         if dn is not None:
@@ -214,9 +236,15 @@ def run_mass(cell, rec, seed):
                                 orc.gauss_lnZ(tr.Lambda, tr.nu) + tr.ln_beta)[:, None]
                             got = _call(rec, "evaluate_ln", lambda: dn.evaluate_ln(J(x)), info)
                             if got is not None:
+                                ns_pre = 0.0
+                                if pre is not None:  # Sherman-Morrison: old covariance in scale
+                                    ns_pre = 0.5 * np.einsum("rd,rde,re->r", np.abs(tr.nu),
+                                                             np.abs(orc.inv(pre)),
+                                                             np.abs(tr.nu))[:, None]
                                 rec.close("normalised = u / int u", got, ref,
                                           ns=orc.factor_ln_abs(tr.Lambda, tr.nu, tr.ln_beta, x)
-                                          + np.abs(orc.gauss_lnZ(tr.Lambda, tr.nu))[:, None],
+                                          + np.abs(orc.gauss_lnZ(tr.Lambda, tr.nu))[:, None]
+                                          + ns_pre,
                                           detail=info, mech=f"normalise:{fk}")
                     else:
                         rec.count("out_of_domain")
@@ -234,7 +262,7 @@ def check_density(rec, p, mu, Sig, info, tag, quad=True):
     if one is not None:
         rec.close("reported mass one", one, np.ones(mu.shape[0]), ns=1.0,
                   detail=dict(info, tag=tag), mech=f"density-reported-mass:{tag}")
-    if quad and mu.shape[1] <= 2:
+    if quad and mu.shape[1] <= 2 and quad_regime(mu, Sig):
         m, ok, a = quad_mass(p, build.Truth(mu=mu, Sigma=Sig))
         if ok:
             rec.close("quadrature mass one", m, np.ones(mu.shape[0]), ns=a,
@@ -302,15 +330,22 @@ def run_ctor(cell, rec, seed):
                     if gen.in_domain(Sl):
                         check_density(rec, ls, np.einsum("rab,rb->ra", W, mu) + bb, Sl, info,
                                       "linear_sum", quad=False)
-                if not diag:
-                    d2, t2 = build.mk_pdf(rng, 1, D)
+                # in-place update (both classes carry their own copy of the method), on a fresh
+                # and on a queried object; the replaced component has another normaliser
+                for warm in (False, True):
+                    d2, t2 = build.mk_pdf(rng, 1, D, diag=diag)
                     i0 = int(rng.integers(0, R))
                     pu = cls(Sigma=J(Sig), mu=J(mu))
+                    if warm:
+                        _call(rec, "integrate", lambda: (pu.integrate(), pu.log_integral()), info)
                     ok = _call(rec, "update", lambda: (pu.update(JI([i0]), d2), True)[1], info)
                     if ok:
                         mu2, Sig2 = mu.copy(), Sig.copy()
                         mu2[i0], Sig2[i0] = t2.mu[0], t2.Sigma[0]
-                        check_density(rec, pu, mu2, Sig2, info, "update", quad=False)
+                        tag = f"update:{'diag' if diag else 'full'}"
+                        check_density(rec, pu, mu2, Sig2, info, tag, quad=False)
+                        check_mass(rec, pu, build.truth_from_moments(mu2, Sig2), info, tag,
+                                   quad=False)
                 # normalising a measure with the same parameters
                 u, tu = build.mk_measure("diag_measure" if diag else "measure", rng, R, D, kappa)
                 dn = _call(rec, "get_density", lambda: u.get_density(), info)
